@@ -18,7 +18,7 @@ def obligations(tier, seed):
     t = 450 if tier == 'quick' else 2400
     names = 'ABCP'
     sh1 = []
-    for i, pre in enumerate(plan(skeletons.TEMPLATES, tier, seed + 2, 8, names=names, lengths_thorough=(3,),
+    for i, pre in enumerate(plan(skeletons.TEMPLATES, tier, seed + 2, 6, names=names, lengths_thorough=(3,),
                                  combos_thorough=[(True, True, True), (True, False, True)])):
         modes = [i % 4] if tier == 'quick' else range(4)
         for m in modes:
